@@ -1061,6 +1061,26 @@ pub fn record_net(seed: u64, tier: &str, trace: &mut Vec<Value>, rep: &mut Repor
         let count_in = |net: &Network, i: usize| -> usize { announced(net, i).map(|a| a.0.iter().product()).unwrap_or(0) };
         let mut plain = true;
         let mut has_loop = false;
+        // calls the contract refuses (reversed or out-of-range indices, inputs of different size, shapes that do not fit,
+        // a loop over a block): each is logged with its outcome, and the session goes on with the network as it was
+        for _ in 0..2 {
+            let (a, b) = (rng.below(n as u64 + 2) as usize, rng.below(n as u64 + 2) as usize);
+            let valid = a < n && b < n && a <= b && count_in(&net, a) == count_in(&net, b);
+            if !valid {
+                let got = guarded(|| net.connect(a, b));
+                trace.push(json!({"event": "Connect", "from": a + 1, "to": b + 1, "outcome": if got.is_ok() { "ok" } else { "panic" }}));
+            }
+            let (la, lb) = (rng.below(n as u64 + 2) as usize, rng.below(n as u64 + 2) as usize);
+            let shapes_fit = la < n && lb < n && announced(&net, la).map(|x| x.0) == announced(&net, lb).map(|x| x.1);
+            if !(la <= lb && shapes_fit) {
+                let scale: neurons::tensor::Scale = std::sync::Arc::new(|_x| 1.0);
+                let got = guarded(|| net.loopback(lb, la, 1, scale, false));
+                trace.push(json!({"event": "Loopback", "outof": lb + 1, "into": la + 1, "iterations": 1, "inskips": false, "outcome": if got.is_ok() { "ok" } else { "panic" }}));
+                if got.is_ok() {
+                    has_loop = true;
+                }
+            }
+        }
         if has_block {
             // blocks cannot be inside loops; keep these sessions plain (forward passes only)
         } else if n >= 2 && rng.below(2) == 0 {
